@@ -176,7 +176,17 @@ def run_one(choices, params):
             if sum(spy.ndisp.values()) != nin:
                 # frames still in the socket buffer are fine only if nobody is waiting for them
                 pass
+            # every request a caller issued went out (a frame left in the send queue after all senders returned never will);
+            # the background thread may still be inside a send of its own (answering a callback of the peer): let it finish
+            if conn._send_queue and not sim.block(lambda: not conn._send_queue, 10, "drain-send-queue"):
+                raise core.Violation("request-stranded", "all callers returned and 10 virtual s passed, %d frame(s) are still in the send queue"
+                                     % len(conn._send_queue))
             seqs = [e[2] for e in ledger if e[0] == "A>B" and e[1] == "req"]
+            caller_ids = set(t.id for t in tasks)       # (the background thread may be between numbering and sending a request of its own)
+            unsent = sorted(s_ for s_, o_ in spy.owner.items() if o_ in caller_ids and s_ not in set(seqs))
+            if unsent:
+                raise core.Violation("request-stranded", "requests with sequence numbers %r were issued (callback registered) but never "
+                                     "appeared on the wire" % (unsent,))
             if len(seqs) != len(set(seqs)):
                 dup = sorted(s for s in set(seqs) if seqs.count(s) > 1)
                 raise core.Violation("seq-reused", "sequence numbers used twice on the wire: %r" % (dup,))
